@@ -2,9 +2,9 @@ from driver import Check, Inst
 from common_worker import *
 
 
-def up(name, w, j, events, tmo=0, failat=99, unw=12, timeout=900):
+def up(name, w, j, events, tmo=0, failat=99, unw=12, timeout=900, r0=0):
     sp, ev = spec(events, 0, 0, 0)
-    inv = "c13_upload!(%s, %d, 2, %d, %s, %d, %d, %d);" % (name, w, j, sp, tmo, failat, unw)
+    inv = "c13_upload!(%s, %d, 2, %d, %s, %d, %d, %d, %d);" % (name, w, j, sp, tmo, failat, r0, unw)
     return Inst(name, "worker", inv, "c13_upload",
                 {"W": w, "blksize": 2, "buffered_blocks_at_abort": j, "events": ev, "write_failure_offset": {99: "never", 98: "symbolic 0..8"}.get(failat, failat),
                  "clean_on_error": "symbolic", "last_inorder_block": "any u16"}, timeout=timeout)
@@ -19,6 +19,9 @@ def build(tier, seed):
         I.append(up("c13_wfail_w%d_j%d" % (w, j), w, j, [(K_DATA, 1, 1, 0)], failat=98))
         # peer silence: six failed receives
         I.append(up("c13_silence_w%d_j%d" % (w, j), w, j, [(K_TIMEOUT, None, 0, 5)] * 7, tmo=5))
+    # five failed receives, a duplicate block, then silence: the worker must still give up (and then clean up)
+    for w, j in ([(2, 1)] if tier == "quick" else [(1, 0), (2, 1), (3, 2)]):
+        I.append(up("c13_dup_then_silence_w%d_j%d" % (w, j), w, j, [(K_DATA, 0, 2, 0)] + [(K_TIMEOUT, None, 0, 5)] * 4, tmo=5, r0=5))
     if tier == "thorough":
         for w, j in [(1, 0), (2, 1), (3, 2)]:
             I.append(up("c13_ev_full_w%d_j%d" % (w, j), w, j, [(ALLK, None, 2)]))
